@@ -1002,11 +1002,22 @@ func (p enforceParameters) Get(name string) (interface{}, error) {
 	}
 }
 
+// maxEvalNesting bounds how deeply eval() sub-rules may themselves call eval().
+const maxEvalNesting = 100
+
 func generateEvalFunction(functions map[string]govaluate.ExpressionFunction, parameters *enforceParameters) govaluate.ExpressionFunction {
+	// the sub-rule is compiled with eval itself in scope, so a stored rule can evaluate
+	// itself; without a bound that recursion ends in an unrecoverable stack overflow
+	nesting := 0
 	return func(args ...interface{}) (interface{}, error) {
 		if len(args) != 1 {
 			return nil, fmt.Errorf("function eval(subrule string) expected %d arguments, but got %d", 1, len(args))
 		}
+		if nesting >= maxEvalNesting {
+			return nil, fmt.Errorf("function eval(subrule string) is nested more than %d levels deep", maxEvalNesting)
+		}
+		nesting++
+		defer func() { nesting-- }()
 
 		expression, ok := args[0].(string)
 		if !ok {
